@@ -1424,17 +1424,16 @@ R.mutant("r3-subquery-criteria-dropped", STRAT,
 
         # propagate loader options etc. to the new query.''', '''        # propagate loader options etc. to the new query.'''),
          "C40-R3")
+# (the former benign variant 'immediate hands the option on' became the library's code with fix c6c48cf; its
+#  converse is now a breaking mutant and a restructured form of the fixed code is the benign one)
+R.mutant("r3-immediate-drops-the-option-again", STRAT,
+         sub('''                    flags,
+                    loadopt=loadopt,
+                    extra_criteria=extra_criteria,
+                    extra_options=extra_options,''', '''                    flags,
+                    extra_options=extra_options,'''), "C40-R3")
 R.mutant("benign-r3-immediate-hands-the-option-on", STRAT,
-         sub('''        lazyloader = self.parent_property._get_strategy((("lazy", "select"),))
-        for state, overwrite in states:
-            dict_ = state.dict
-
-            if overwrite or key not in dict_:
-                value = lazyloader._load_for_state(
-                    state,
-                    flags,
-                    extra_options=extra_options,''', '''        lazyloader = self.parent_property._get_strategy((("lazy", "select"),))
-        if loadopt and loadopt._extra_criteria:
+         sub('''        if loadopt and loadopt._extra_criteria:
             extra_criteria = loadopt._generate_extra_criteria(context)
         else:
             extra_criteria = ()
@@ -1447,6 +1446,19 @@ R.mutant("benign-r3-immediate-hands-the-option-on", STRAT,
                     flags,
                     loadopt=loadopt,
                     extra_criteria=extra_criteria,
+                    extra_options=extra_options,''', '''        if not (loadopt and loadopt._extra_criteria):
+            option_criteria = ()
+        else:
+            option_criteria = loadopt._generate_extra_criteria(context)
+        for state, overwrite in states:
+            dict_ = state.dict
+
+            if overwrite or key not in dict_:
+                value = lazyloader._load_for_state(
+                    state,
+                    flags,
+                    extra_criteria=option_criteria,
+                    loadopt=loadopt,
                     extra_options=extra_options,'''), None)
 R.mutant("benign-r3-selectin-criteria-in-local", STRAT,
          sub('''        if loadopt and loadopt._extra_criteria:
@@ -1550,9 +1562,9 @@ R.mutant("benign-r4-wildcard-set-by-union", _MAP,
 R.mutant("benign-r2-immediate-delegate-key-constant", STRAT,
          chain(sub('''        key = self.key
         lazyloader = self.parent_property._get_strategy((("lazy", "select"),))
-        for state, overwrite in states:''', '''        key = self.key
+        if loadopt and loadopt._extra_criteria:''', '''        key = self.key
         lazyloader = self.parent_property._get_strategy(_LAZY_SELECT_KEY)
-        for state, overwrite in states:'''),
+        if loadopt and loadopt._extra_criteria:'''),
                sub('''def _register_attribute(''', '''_LAZY_SELECT_KEY = (("lazy", "select"),)
 
 
